@@ -173,7 +173,7 @@ def WellPlaced (P : Params) (H W : Nat) (s : Surface) : Prop :=
   (∀ q r c, q.1 < H → q.2 < W → r < H → c < W → isWide P (s r c) = true →
     covers P s q (r, c) = false ∧ covers P s q (r, c + 1) = false)
 
-/-- executable form of `WellPlaced` (used by the driver; `wellPlacedB_iff` in the proofs) -/
+/-- executable form of `WellPlaced` (used by the driver and, through `wellPlacedB_sound`, to exhibit members of the domain by `decide`) -/
 def wellPlacedB (P : Params) (H W : Nat) (s : Surface) : Bool :=
   let ps := allPos H W
   ps.all (fun p => match (s p.1 p.2).kind with
